@@ -12,7 +12,7 @@ from rustlex import scan_items, match_bracket, strip_comments, next_token_pos, L
 
 REPO = os.environ.get('VERIF_REPO', '/repo')
 VERIF = os.path.dirname(os.path.dirname(os.path.abspath(__file__)))
-GEN = os.path.join(VERIF, 'gen')
+GEN = os.environ.get('VERIF_GEN_DIR') or os.path.join(VERIF, 'gen')   # VERIF_GEN_DIR: scratch runs (seeded-change triage in parallel) only
 
 
 class LostAnchor(Exception):
@@ -285,6 +285,7 @@ class Unit:
         for sp in splices or []:
             (anchor, ins, where) = sp[:3]
             optional = len(sp) > 3 and sp[3] == 'opt'
+            first = len(sp) > 3 and sp[3] == 'first'
             if anchor == '@END':
                 kk = body.rstrip().rfind('}')
                 body = body[:kk] + ins + '\n' + body[kk:]
@@ -296,6 +297,17 @@ class Unit:
             cnt = body.count(anchor)
             if cnt == 0 and optional:
                 # proof-bookkeeping splice whose anchor is gone: skip it; the obligations it supported then fail on their own
+                continue
+            if cnt >= 1 and first:
+                # proof help for the FIRST occurrence only (e.g. the original early `return;`): an exit added later gets no help and
+                # must establish the postconditions on its own
+                kk = body.index(anchor)
+                if where == 'before':
+                    body = body[:kk] + ins + '\n' + body[kk:]
+                elif where == 'after':
+                    body = body[:kk + len(anchor)] + '\n' + ins + body[kk + len(anchor):]
+                else:
+                    raise ValueError(where)
                 continue
             if cnt != 1:
                 raise LostAnchor('%s: splice anchor %r occurs %d times' % (qname, anchor, cnt))
